@@ -223,10 +223,13 @@ def mes(case, U, tie="lexico", init=(), b0=None, branch=False):
         money = [b0] * n
         pool = list(pool0)
         bought = []
+        mes.last_had_tie = False  # did some round of this run have more than one project at the least price (read by C02's refuse stream)
         while True:
             rho, tied = step(money, pool)
             if rho is None:
                 break
+            if len(tied) > 1:
+                mes.last_had_tie = True
             sel = min(tied, key=key)
             money = pay(money, sel, rho)
             pool.remove(sel)
